@@ -142,9 +142,9 @@ pub struct Geometry {
 }
 
 pub const WIDTHS: [usize; 5] = [8, 12, 16, 20, 24];
-pub const FAMILIES: [&str; 17] = [
+pub const FAMILIES: [&str; 18] = [
     "silence", "dc", "dcmax", "dcmin", "altfull", "impulse", "step", "ramp", "poly", "sine",
-    "noise_lo", "noise_mid", "noise_full", "cauchy", "riceadv", "thresh", "nearverb",
+    "noise_lo", "noise_mid", "noise_full", "cauchy", "riceadv", "thresh", "nearverb", "dcnoise",
 ];
 pub const RELATIONS: [&str; 5] = ["indep", "same", "inverted", "near", "mixed"];
 
@@ -294,6 +294,19 @@ pub fn channel(rng: &mut StdRng, family: &str, bps: usize, n: usize) -> Vec<i32>
                     x = if up { x + m } else { x - m };
                     v[t] = clampw(x, bps);
                 }
+            }
+        }
+        "dcnoise" => {
+            // Threshold-directed: a DC level L plus noise.  The LPC coefficients of such a signal have one
+            // sign and sum to about 1.0, i.e. sum|coef| ~ 2^shift (2^15 at full precision), so that
+            // max|x| * sum|coef| crosses 2^31 at L ~ 2^16 and 2^32 at L ~ 2^17: the window in which the
+            // 32-bit fast path of the residual computation is *almost* applicable (lpc.rs compute_error).
+            let e = rng.gen_range(15.3..17.4f64);
+            let level = (2f64.powf(e) as i64).min(hi - hi / 4).max(1);
+            let amp = ((level as f64) * rng.gen_range(0.08..0.25)) as i64 + 1;
+            let sign = if rng.gen_bool(0.5) { 1 } else { -1 };
+            for x in v.iter_mut() {
+                *x = clampw(sign * (level + rng.gen_range(-amp..=amp)), bps);
             }
         }
         f if f.starts_with("nonstat") => {
